@@ -38,6 +38,22 @@ def domains_used(nodes, acc: set):
     return acc
 
 
+def attr_refs(nodes) -> list[str]:
+    import onnx
+
+    out = []
+    for n in nodes:
+        for a in n.attribute:
+            if a.ref_attr_name:
+                out.append(a.ref_attr_name)
+            if a.type == onnx.AttributeProto.GRAPH:
+                out += attr_refs(a.g.node)
+            elif a.type == onnx.AttributeProto.GRAPHS:
+                for g in a.graphs:
+                    out += attr_refs(g.node)
+    return out
+
+
 def import_problems(opset_import, nodes, where: str) -> list[str]:
     out = []
     imported = Counter(o.domain for o in opset_import)
@@ -69,7 +85,7 @@ def structural_oracle(fn, meta: dict, real_neutral, stats: Counter) -> list[str]
     neutral = enc.proto_to_neutral(fp)
     for pr in enc.scope_walk(neutral):
         problems.append("scope walker (FunctionProto): " + pr)
-    if not meta["attrs"]:
+    if all(len(a) > 2 and a[2] is not None for a in meta["attrs"]):
         try:
             out_types = [c01._Ty(c01.type_proto(t, meta["shape"])) for _, t in meta["rets"]]
             mp = fn.to_model_proto(output_types=out_types)
@@ -86,6 +102,8 @@ def structural_oracle(fn, meta: dict, real_neutral, stats: Counter) -> list[str]
                                     "ModelProto")
         for pr in enc.scope_walk(enc.proto_to_neutral(mp.graph)):
             problems.append("scope walker (ModelProto graph): " + pr)
+        for r in attr_refs(mp.graph.node):
+            problems.append(f"ModelProto main graph refers to attribute parameter @{r} (nothing binds it in a model)")
         if mp.ir_version < 3:
             problems.append(f"ir_version {mp.ir_version}")
     return problems
@@ -131,6 +149,14 @@ def main(run: core.Run) -> None:
     stasks, sprogs = c01.generate_tasks(run, run.size(120, 1200), 1, 25, subscripts=True, prefix="g",
                                         semantic=False, structural=True)
     tasks += stasks
+    # dedicated streams: subscripts with shared integers in sibling loop bodies / branches (an index-constant cache that
+    # outlives its expression or its subgraph), and user variables named like generated names (`x_0`, `x_sliced`, …)
+    sib = [gen.sibling_subscript_program(run.rng, f"s{k}") for k in range(run.size(40, 300))]
+    col = [gen.name_collision_program(run.rng, f"u{k}", subscripts=(k % 2 == 0)) for k in range(run.size(50, 400))]
+    ded = sib + col
+    for k in range(0, len(ded), 25):
+        tasks.append({"progs": ded[k:k + 25], "seed": run.rng.randrange(1 << 30), "n_inputs": 1, "semantic": False,
+                      "structural": True})
     # near-miss programs
     near = []
     for k in range(n_near):
